@@ -809,7 +809,14 @@ func init() {
 		an, _ := in["a"].(map[string]any)
 		bn, _ := in["b"].(map[string]any)
 		a, b := BuildNode(an), BuildNode(bn) // two independent builds
-		return []string{eqVerdict(a, b), eqVerdict(b, a)}
+		first := []string{eqVerdict(a, b), eqVerdict(b, a)}
+		// the verdict belongs to the two values, not to the history: asked again (both orders, twice) it is the same
+		for rep := 0; rep < 2; rep++ {
+			if again := []string{eqVerdict(a, b), eqVerdict(b, a)}; again[0] != first[0] || again[1] != first[1] {
+				return []string{"unstable:" + first[0] + "->" + again[0], "unstable:" + first[1] + "->" + again[1]}
+			}
+		}
+		return first
 	}
 	treeGenerators["equal"] = func(g *treeGen) (Node, any) {
 		g.nils, g.validConds = true, true
@@ -946,6 +953,14 @@ func (g *treeGen) mutate(n map[string]any) {
 	kids := func(k string) []any { l, _ := n[k].([]any); return l }
 	switch n["t"] {
 	case "leaf":
+		if (n["ty"] == "int" || n["ty"] == "bool") && g.rng.Intn(4) == 0 { // another Go type that PRINTS the same
+			if n["ty"] == "int" && g.rng.Intn(2) == 0 {
+				n["ty"] = "flt"
+			} else {
+				n["ty"] = "str"
+			}
+			return
+		}
 		if n["ty"] == "bool" {
 			if Detok(anyToks(n["v"])) == "true" {
 				n["v"] = toksAny(Tokenize("false"))
